@@ -530,6 +530,11 @@ func init() {
 			// the recorded finding: the first token after a comment line carries a stale start column
 			g.emit(c24Case("nextOutside", "# a comment line\nnext\n")...)
 			g.emit(c24Case("undeclared", "counter a\n/x/ {\n  a++\n  # note\n  zz++\n}\n")...)
+			// the capture groups of subst()'s pattern are nobody's, also when the pattern is a constant
+			g.emit(c24Case("undefCapref", "const NUM /(\\d+)\\.(\\d+)/\ntext t\ncounter c by k\n/^(\\S+)/ {\n  t = subst(NUM, \"x\", $1)\n  c[$2]++\n}\n")...)
+			g.emit(c24Case("undefCapref", "const NUM /(?P<n>\\d+)/\ntext t\ncounter c by k\n/^\\S+/ {\n  t = subst(NUM, \"x\", \"a1\")\n  /x/ {\n    c[$n]++\n  }\n}\n")...)
+			g.emit(c24Case("undefCapref", "text t\ncounter c by k\n/^\\S+/ {\n  t = subst(/(\\d+)/, \"x\", \"a1\")\n  c[$1]++\n}\n")...)
+			g.emit(c24Case("-", "const NUM /(\\d+)/\ntext t\ncounter c by k\n/^(\\S+)/ {\n  t = subst(NUM, \"x\", $1)\n  c[$1]++\n}\n")...)
 			// over the length limit only as a whole
 			{
 				a6, b6 := strings.Repeat("a", 600), strings.Repeat("b", 600)
